@@ -199,6 +199,12 @@ impl<'a> Compiler<'a> {
             };
             self.current_index = CardIndex::new(il, 0);
             self.current_function_handle = main_function.handle;
+            // main can be referenced like any other function, so it needs a label too
+            self.program
+                .labels
+                .0
+                .insert(main_function.handle, Label::new(0))
+                .unwrap();
             self.scope_begin();
             self.process_function(main_function)?;
             self.current_index = CardIndex {
